@@ -321,12 +321,28 @@ def main():
         if ok_h and os.path.exists(DRIVER):
             corpus = cfg.get("corpus_runs", [])
             results = run_all(prop, cfg, tier, seed, workroot)
-        K_fail, O_fail = [], []
+        K_fail, O_fail, other_prop = [], [], []
+        allowed = set(cfg.get("tags", [])) | {prop}
+        klines = cfg.get("lines")
+        other_k = 0
         for r in results:
             for d in r["diffs"]:
-                K_fail.append((r, d))
+                # a disagreement on a protocol line kind that another property is about (e.g. a `prove` line
+                # in C01's run) is that property's business
+                if klines and d["op"] and d["op"].split(" ")[0] not in klines and not d["op"].startswith("<"):
+                    other_k += 1
+                else:
+                    K_fail.append((r, d))
             for m in r["oracle"]:
-                O_fail.append((r, m))
+                # oracle messages are tagged with the property whose statement they contradict; a message
+                # tagged for a property outside this check's family is recorded but is not THIS property's violation
+                tag = re.match(r"^(?:\([^)]*\) )?(?:C16 history engine[^:]*: )?(C\d\d)\b", m)
+                if tag and "tags" in cfg and tag.group(1) not in allowed:
+                    other_prop.append(m)
+                else:
+                    O_fail.append((r, m))
+        if other_prop:
+            print(f"note: {len(other_prop)} oracle message(s) concern other properties (their own checks report them), e.g.: {other_prop[0][:200]}")
         # known findings
         kn, unk = classify(prop, [m for _, m in O_fail], known)
         kn2, unk_k = classify(prop, [f"MODEL-DIFF op={d['op']} impl={d['impl']} model={d['model']}" for _, d in K_fail], known)
@@ -400,6 +416,8 @@ def main():
                 "input_distribution": stats,
                 "model_disagreements": len(K_fail), "oracle_failures": len(O_fail),
                 "known_findings_hit": {k: len(v) for k, v in kn.items()},
+                "failures_tagged_for_other_properties": len(other_prop),
+                "model_disagreements_on_other_properties_lines": other_k,
                 "shards": len(results),
                 "notes": notes,
             },
